@@ -170,6 +170,39 @@ static Verdict runOn(const DescT<Obj>& d, const Case& c, Info& info)
                 info.tag("packet_set_payload");
                 continue;
             }
+            if (d.dataSetter)
+            {
+                // setData: the data and the length fields take the new values (a quarter of them: exactly the size the object
+                // already holds), every other field keeps its own
+                const uint64_t v = c.ops[i].value;
+                size_t n = ((v >> 32) % 4 == 0) ? std::min(m.data.size(), d.maxData) : static_cast<size_t>((v >> 40) % (d.maxData + 1));
+                Bytes bytes = fillBytes(static_cast<uint32_t>(v), n);
+                d.dataSetter(o, bytes);
+                m.data = bytes;
+                for (const auto& e : d.dataEffects)
+                {
+                    uint64_t cv = 0;
+                    const auto& cellDesc = d.cells[static_cast<size_t>(e.first)];
+                    uint64_t cellMask = cellDesc.width >= 8 ? ~0ull : ((1ull << (8 * cellDesc.width)) - 1);
+                    if (e.second(n, cv))
+                        m.cells[static_cast<size_t>(e.first)] = cv & cellMask;
+                    else
+                    {
+                        // no value prescribed for this length: take what the object reports
+                        m.cells[static_cast<size_t>(e.first)] = 0;
+                        for (const auto& f : d.fields)
+                            if (f.cell == e.first)
+                                m.cells[static_cast<size_t>(e.first)] |= (f.get(o) & f.mask()) << f.shift;
+                    }
+                }
+                std::ostringstream what;
+                what << "op " << i << ": setData of " << n << " bytes (the object held " << (n == m.data.size() ? "as many" : "another number") << ")";
+                VF_TRY(m.check(o, what.str()));
+                ++writes;
+                changedOnNonZero = true;
+                info.tag("data_setter");
+                continue;
+            }
             // group setter (raw run of header bytes); classes without one skip the op
             if (d.groups.empty())
                 continue;
@@ -240,6 +273,30 @@ static void enumerate(int, const std::function<bool(const Case&)>& emit)
             nGroups = desc.groups.size();
             return Verdict::pass();
         });
+        size_t maxData = 0;
+        withClass(cls, [&](auto desc) {
+            maxData = desc.dataSetter ? desc.maxData : 0;
+            return Verdict::pass();
+        });
+        if (maxData)
+            for (uint64_t n = 0; n <= maxData; ++n)
+                for (uint8_t bg = 0; bg < 3; ++bg)
+                    for (uint64_t same = 0; same < 2; ++same)
+                    {
+                        Case c;
+                        c.cls = static_cast<uint8_t>(cls);
+                        c.bg = bg;
+                        c.seed = static_cast<uint32_t>(cls * 100 + n);
+                        Op op;
+                        op.field = 0x8000;
+                        op.value = (n << 40) | ((same ? 0ull : 1ull) << 32) | (n * 131 + 7);
+                        c.ops.push_back(op);
+                        // a second write of exactly the size just written (the object now holds n bytes)
+                        if (same)
+                            c.ops.push_back(op);
+                        if (!emit(c))
+                            return;
+                    }
         bool hasPayloadSetter = false;
         withClass(cls, [&](auto desc) {
             hasPayloadSetter = static_cast<bool>(desc.payloadSetter);
